@@ -190,7 +190,7 @@ def build_driver(pid, cfg, log):
             f.write("open %s\n" % (model[0].upper() + model[1:]))
             for src in srcs[1:]:
                 f.write(open(src).read())
-        rc, out = sh(["ocamlfind", "ocamlopt", "-O2" if False else "-inline", "50", "-w", "-a", "-package", "zarith", "-linkpkg",
+        rc, out = sh(["ocamlfind", "ocamlopt", "-O2" if False else "-inline", "50", "-w", "-a", "-package", ",".join(["zarith"] + cfg.get("ocaml_packages", [])), "-linkpkg",
                       model + ".mli", model + ".ml", name + "_main.ml", "-o", exe], cwd=gen, timeout=900)
         if rc != 0:
             log.append("ocaml build failed:\n" + out[-3000:])
@@ -302,7 +302,9 @@ def run_replay_file(exe, path, budget):
 def run_driver(driver, lines):
     if isinstance(driver, str):
         driver = [driver]
-    p = subprocess.run(driver, input="\n".join(lines) + "\n", stdout=subprocess.PIPE, stderr=subprocess.STDOUT, text=True)
+    # the extracted code recurses on unary naturals (N.to_nat of a buffer length): give it the stack
+    cmd = ["bash", "-c", "ulimit -s unlimited 2>/dev/null || ulimit -s 1000000; exec \"$@\"", "drv"] + list(driver)
+    p = subprocess.run(cmd, input="\n".join(lines) + "\n", stdout=subprocess.PIPE, stderr=subprocess.STDOUT, text=True)
     return p.returncode, p.stdout.split("\n")
 
 
